@@ -160,3 +160,169 @@ fn c03_io_latch_keeps_declared_type_reals() {
     kani::cover!(true);
     kani::cover!(true);
 }
+
+// =====================================================================================
+// Path 4: initialiser / debugger-write coercion (harness::coerce_value_to_type)
+// =====================================================================================
+use trust_runtime::harness::coerce_value_to_type;
+use trust_runtime::value::{DateTimeValue, DateValue, Duration, LDateTimeValue, LDateValue, LTimeOfDayValue, TimeOfDayValue};
+
+/// One call: source `$sv($st)` coerced to integer-like target `$tv` (`$tt`, TypeId::$tid).
+macro_rules! init_int_case {
+    ($tid:ident, $tv:ident, $tt:ty, $sv:ident, $st:ty) => {{
+        let x: $st = kani::any();
+        let r = coerce_value_to_type(Value::$sv(x), TypeId::$tid);
+        let fits = (x as i128) >= (<$tt>::MIN as i128) && (x as i128) <= (<$tt>::MAX as i128);
+        match &r {
+            Ok(Value::$tv(y)) => { assert!(fits, "C03: initialiser outside the declared type's range was stored");
+                                   assert!((*y as i128) == (x as i128), "C03: initialiser value changed by coercion"); }
+            Ok(_) => assert!(false, "C03: initialiser coercion produced a value whose tag is not the declared type"),
+            Err(_) => assert!(!fits, "C03: an initialiser inside the declared type's range was refused"),
+        }
+        kani::cover!(fits);
+        std::mem::forget(r);
+    }};
+}
+
+macro_rules! init_int_target {
+    ($name:ident, $tid:ident, $tv:ident, $tt:ty) => {
+        #[kani::proof]
+        fn $name() {
+            let k: u8 = kani::any();
+            match k % 8 {
+                0 => init_int_case!($tid, $tv, $tt, SInt, i8), 1 => init_int_case!($tid, $tv, $tt, Int, i16),
+                2 => init_int_case!($tid, $tv, $tt, DInt, i32), 3 => init_int_case!($tid, $tv, $tt, LInt, i64),
+                4 => init_int_case!($tid, $tv, $tt, USInt, u8), 5 => init_int_case!($tid, $tv, $tt, UInt, u16),
+                6 => init_int_case!($tid, $tv, $tt, UDInt, u32), _ => init_int_case!($tid, $tv, $tt, ULInt, u64),
+            }
+        }
+    };
+}
+
+// @verif prop=C03 kernel=K4 tiers=thorough timeout=1800 unwind=1 mem=12
+// @verif what=initialiser coercion to SINT: from every integer source type the stored value has tag SINT and the same mathematical value, or the initialiser is refused exactly when it is outside the range of SINT
+// @verif fns=harness::coerce::{coerce_value_to_type,coerce_signed,coerce_unsigned,coerce_bitstring}
+// @verif bound=every payload of the 8 integer source types (source tag concrete per call site)
+init_int_target!(c03_init_coercion_sint, SINT, SInt, i8);
+
+// @verif prop=C03 kernel=K4 tiers=quick,thorough timeout=1800 unwind=1 mem=12
+// @verif what=initialiser coercion to INT: from every integer source type the stored value has tag INT and the same mathematical value, or the initialiser is refused exactly when it is outside the range of INT
+// @verif fns=harness::coerce::{coerce_value_to_type,coerce_signed,coerce_unsigned,coerce_bitstring}
+// @verif bound=every payload of the 8 integer source types (source tag concrete per call site)
+init_int_target!(c03_init_coercion_int, INT, Int, i16);
+
+// @verif prop=C03 kernel=K4 tiers=thorough timeout=1800 unwind=1 mem=12
+// @verif what=initialiser coercion to DINT: from every integer source type the stored value has tag DINT and the same mathematical value, or the initialiser is refused exactly when it is outside the range of DINT
+// @verif fns=harness::coerce::{coerce_value_to_type,coerce_signed,coerce_unsigned,coerce_bitstring}
+// @verif bound=every payload of the 8 integer source types (source tag concrete per call site)
+init_int_target!(c03_init_coercion_dint, DINT, DInt, i32);
+
+// @verif prop=C03 kernel=K4 tiers=thorough timeout=1800 unwind=1 mem=12
+// @verif what=initialiser coercion to LINT: from every integer source type the stored value has tag LINT and the same mathematical value, or the initialiser is refused exactly when it is outside the range of LINT
+// @verif fns=harness::coerce::{coerce_value_to_type,coerce_signed,coerce_unsigned,coerce_bitstring}
+// @verif bound=every payload of the 8 integer source types (source tag concrete per call site)
+init_int_target!(c03_init_coercion_lint, LINT, LInt, i64);
+
+// @verif prop=C03 kernel=K4 tiers=thorough timeout=1800 unwind=1 mem=12
+// @verif what=initialiser coercion to USINT: from every integer source type the stored value has tag USINT and the same mathematical value, or the initialiser is refused exactly when it is outside the range of USINT
+// @verif fns=harness::coerce::{coerce_value_to_type,coerce_signed,coerce_unsigned,coerce_bitstring}
+// @verif bound=every payload of the 8 integer source types (source tag concrete per call site)
+init_int_target!(c03_init_coercion_usint, USINT, USInt, u8);
+
+// @verif prop=C03 kernel=K4 tiers=thorough timeout=1800 unwind=1 mem=12
+// @verif what=initialiser coercion to UINT: from every integer source type the stored value has tag UINT and the same mathematical value, or the initialiser is refused exactly when it is outside the range of UINT
+// @verif fns=harness::coerce::{coerce_value_to_type,coerce_signed,coerce_unsigned,coerce_bitstring}
+// @verif bound=every payload of the 8 integer source types (source tag concrete per call site)
+init_int_target!(c03_init_coercion_uint, UINT, UInt, u16);
+
+// @verif prop=C03 kernel=K4 tiers=thorough timeout=1800 unwind=1 mem=12
+// @verif what=initialiser coercion to UDINT: from every integer source type the stored value has tag UDINT and the same mathematical value, or the initialiser is refused exactly when it is outside the range of UDINT
+// @verif fns=harness::coerce::{coerce_value_to_type,coerce_signed,coerce_unsigned,coerce_bitstring}
+// @verif bound=every payload of the 8 integer source types (source tag concrete per call site)
+init_int_target!(c03_init_coercion_udint, UDINT, UDInt, u32);
+
+// @verif prop=C03 kernel=K4 tiers=quick,thorough timeout=1800 unwind=1 mem=12
+// @verif what=initialiser coercion to ULINT: from every integer source type the stored value has tag ULINT and the same mathematical value, or the initialiser is refused exactly when it is outside the range of ULINT
+// @verif fns=harness::coerce::{coerce_value_to_type,coerce_signed,coerce_unsigned,coerce_bitstring}
+// @verif bound=every payload of the 8 integer source types (source tag concrete per call site)
+init_int_target!(c03_init_coercion_ulint, ULINT, ULInt, u64);
+
+// @verif prop=C03 kernel=K4 tiers=thorough timeout=1800 unwind=1 mem=12
+// @verif what=initialiser coercion to BYTE: from every integer source type the stored value has tag BYTE and the same mathematical value, or the initialiser is refused exactly when it is outside the range of BYTE
+// @verif fns=harness::coerce::{coerce_value_to_type,coerce_signed,coerce_unsigned,coerce_bitstring}
+// @verif bound=every payload of the 8 integer source types (source tag concrete per call site)
+init_int_target!(c03_init_coercion_byte, BYTE, Byte, u8);
+
+// @verif prop=C03 kernel=K4 tiers=quick,thorough timeout=1800 unwind=1 mem=12
+// @verif what=initialiser coercion to WORD: from every integer source type the stored value has tag WORD and the same mathematical value, or the initialiser is refused exactly when it is outside the range of WORD
+// @verif fns=harness::coerce::{coerce_value_to_type,coerce_signed,coerce_unsigned,coerce_bitstring}
+// @verif bound=every payload of the 8 integer source types (source tag concrete per call site)
+init_int_target!(c03_init_coercion_word, WORD, Word, u16);
+
+// @verif prop=C03 kernel=K4 tiers=thorough timeout=1800 unwind=1 mem=12
+// @verif what=initialiser coercion to DWORD: from every integer source type the stored value has tag DWORD and the same mathematical value, or the initialiser is refused exactly when it is outside the range of DWORD
+// @verif fns=harness::coerce::{coerce_value_to_type,coerce_signed,coerce_unsigned,coerce_bitstring}
+// @verif bound=every payload of the 8 integer source types (source tag concrete per call site)
+init_int_target!(c03_init_coercion_dword, DWORD, DWord, u32);
+
+// @verif prop=C03 kernel=K4 tiers=thorough timeout=1800 unwind=1 mem=12
+// @verif what=initialiser coercion to LWORD: from every integer source type the stored value has tag LWORD and the same mathematical value, or the initialiser is refused exactly when it is outside the range of LWORD
+// @verif fns=harness::coerce::{coerce_value_to_type,coerce_signed,coerce_unsigned,coerce_bitstring}
+// @verif bound=every payload of the 8 integer source types (source tag concrete per call site)
+init_int_target!(c03_init_coercion_lword, LWORD, LWord, u64);
+
+macro_rules! init_exact {
+    ($tid:ident, $src:expr, |$r:ident| $ok:expr) => {{
+        let $r = coerce_value_to_type($src, TypeId::$tid);
+        assert!($ok, "C03: initialiser coercion stored a value whose tag is not the declared type (or refused the declared type itself)");
+        std::mem::forget($r);
+    }};
+}
+
+// @verif prop=C03 kernel=K4 tiers=quick,thorough timeout=1800 unwind=1 mem=12
+// @verif what=initialiser coercion for TIME/LTIME/DATE/LDATE/TOD/LTOD/DT/LDT/BOOL targets: the stored value always carries the declared tag (TIME <-> LTIME are re-tagged with the same duration), every other source tag is refused
+// @verif fns=harness::coerce::{coerce_value_to_type,coerce_time,coerce_date,coerce_tod,coerce_dt}
+// @verif bound=every i64 payload; per target the declared tag, its short/long sibling and one foreign tag (DINT)
+#[kani::proof]
+fn c03_init_coercion_time_date_bool() {
+    let x: i64 = kani::any();
+    let d = Duration::from_nanos(x);
+    let k: u8 = kani::any();
+    match k % 14 {
+        0 => init_exact!(TIME, Value::Time(d), |r| matches!(&r, Ok(Value::Time(y)) if y.as_nanos() == x)),
+        1 => init_exact!(TIME, Value::LTime(d), |r| matches!(&r, Ok(Value::Time(y)) if y.as_nanos() == x)),
+        2 => init_exact!(LTIME, Value::LTime(d), |r| matches!(&r, Ok(Value::LTime(y)) if y.as_nanos() == x)),
+        3 => init_exact!(LTIME, Value::Time(d), |r| matches!(&r, Ok(Value::LTime(y)) if y.as_nanos() == x)),
+        4 => init_exact!(TIME, Value::DInt(x as i32), |r| r.is_err()),
+        5 => init_exact!(DATE, Value::Date(DateValue::new(x)), |r| matches!(&r, Ok(Value::Date(y)) if y.ticks() == x)),
+        6 => init_exact!(DATE, Value::LDate(LDateValue::new(x)), |r| r.is_err() || matches!(&r, Ok(Value::Date(_)))),
+        7 => init_exact!(LDATE, Value::LDate(LDateValue::new(x)), |r| matches!(&r, Ok(Value::LDate(y)) if y.nanos() == x)),
+        8 => init_exact!(TOD, Value::Tod(TimeOfDayValue::new(x)), |r| matches!(&r, Ok(Value::Tod(y)) if y.ticks() == x)),
+        9 => init_exact!(LTOD, Value::Tod(TimeOfDayValue::new(x)), |r| r.is_err() || matches!(&r, Ok(Value::LTod(_)))),
+        10 => init_exact!(DT, Value::Dt(DateTimeValue::new(x)), |r| matches!(&r, Ok(Value::Dt(y)) if y.ticks() == x)),
+        11 => init_exact!(LDT, Value::Dt(DateTimeValue::new(x)), |r| r.is_err() || matches!(&r, Ok(Value::Ldt(_)))),
+        12 => init_exact!(BOOL, Value::Bool(x & 1 == 1), |r| matches!(&r, Ok(Value::Bool(y)) if *y == (x & 1 == 1))),
+        _ => init_exact!(BOOL, Value::DInt(x as i32), |r| r.is_err()),
+    }
+    kani::cover!(k % 14 == 3);
+    kani::cover!(k % 14 == 13);
+}
+
+// @verif prop=C03,C07 kernel=K3 tiers=quick,thorough timeout=1500 unwind=1
+// @verif what=I/O latch into a variable whose declared type has no image conversion (TIME, LTIME, DATE, DT): the raw DWORD/LWORD is never stored as-is (the latch faults or yields the declared tag)
+// @verif fns=io::coerce_from_io
+// @verif bound=every raw DWORD / LWORD value; declared types TIME, DATE, DT (at %ID) and LTIME (at %IL)
+#[kani::proof]
+fn c03_io_latch_untyped_targets_never_store_raw() {
+    let k: u8 = kani::any();
+    let r = match k % 4 {
+        0 => coerce_from_io_x(Value::DWord(kani::any()), TypeId::TIME),
+        1 => coerce_from_io_x(Value::DWord(kani::any()), TypeId::DATE),
+        2 => coerce_from_io_x(Value::DWord(kani::any()), TypeId::DT),
+        _ => coerce_from_io_x(Value::LWord(kani::any()), TypeId::LTIME),
+    };
+    assert!(!matches!(&r, Ok(Value::DWord(_)) | Ok(Value::LWord(_))), "C03: a raw image word was latched into a variable of a date/time type");
+    kani::cover!(k % 4 == 0);
+    kani::cover!(k % 4 == 3);
+    std::mem::forget(r);
+}
